@@ -170,7 +170,7 @@ _U9_MUT = [r"ParsedPacket::(insert_rr|insertion_offset|rrcount_inc|rrcount_dec|r
            r"trait RdataIterable::(set_rr_ttl|set_rr_ip)$",
            r"<DNSIterable for (Response|Question)Iterator>::(set_offset|set_offset_next|invalidate|recompute_rr|recompute_sections|raw_mut|parsed_packet_mut)$",
            r"RRIterator::recompute$", r"Compress::raw_name_len$",
-           r"spec/(mutate|pfmut|pfmut_ops|pfmut_q|iter_mut|pfbmap|pfedns|clients_u9|pfpacket|pfedit|pfedit_names|locality|uncompress)\.rs"]
+           r"spec/(mutate|pfmut|pfmut_ops|pfmut_q|walk|iter_mut|pfbmap|pfedns|clients_u9|pfpacket|pfedit|pfedit_names|locality|uncompress)\.rs"]
 _U9_ASSUME = ["DNSIterable::rdata_slice_mut (a two-line `&mut packet[name_end..]` accessor) is taken on trust with its obvious contract: Verus keeps no length facts for a mutable sub-slice",
               "slice_copy_into / be_write_* shims stand for `D[a..b].copy_from_slice(S)` / BigEndian::write_* (rewrite table R10, R26) with the std semantics as their contract",
               "Compress::uncompress / uncompress_with_previous_offset / check_compressed_name / DNSSector::parse enter unit U9 by their contracts, which are verified in units U6 / U1",
@@ -209,11 +209,11 @@ PROPS.update({
         "title": "Deleting records while iterating is safe, exact and terminates",
         "units": ["U9"],
         "cone": [r"trait TypedIterable::(delete|resize_rr|current_section)$", r"trait DNSIterable::(set_offset|set_offset_next|invalidate|is_tombstone|recompute_rr|recompute_sections|raw_mut|parsed_packet_mut)$",
-                 r"ResponseIterator::(next|next_including_opt|maybe_skip_opt_section)$", r"QuestionIterator::next$", r"ParsedPacket::(rrcount_dec|into_iter_)", r"RRIterator::", r"spec/(mutate|pfmut|pfmut_ops|pfmut_q|iter_mut|pfbmap|pfedns|clients_u9|iter|reader)\.rs"],
+                 r"ResponseIterator::(next|next_including_opt|maybe_skip_opt_section)$", r"QuestionIterator::next$", r"ParsedPacket::(rrcount_dec|into_iter_)", r"RRIterator::", r"spec/(mutate|pfmut|pfmut_ops|pfmut_q|walk|iter_mut|pfbmap|pfedns|clients_u9|iter|reader)\.rs"],
         "witness": ("c11", 6000),
         "level": "proof", "design_ref": "DESIGN.md section 5 C11",
         "assumptions": _U9_ASSUME + ["the walk itself (a client loop calling next() and delete()) is not a function of the repository: it is verified as a client written in the repository's iteration idiom (delete-everything walk); the arbitrary-subset walk is exercised by the differential replay only"],
-        "level_text": "delete() through a cursor removes exactly the byte range of the record under the cursor from the (decompressed) packet, lowers exactly that section's count, clears the section offset when the count reaches zero, and turns the cursor into a tombstone (exact-state postcondition `deleted`); client_delete proves for every valid cursor of a record section: the call succeeds, object and cursor invariants hold again, the section then consists of the k records before the cursor in place and the n-k-1 after it moved up (byte-exact), and a second delete() through the same cursor returns an error leaving packet and cursor untouched; client_delete_all_answers proves that the repository's walk idiom deleting every record it is given terminates (decreases: records left), never yields a deleted record (each restart yields the first survivor), and leaves the section absent (count 0, offset None) with the object invariant intact, on compressed and pointer-free packets. NOT proved: the general walk with an arbitrary subset of deletions ('every survivor yielded at least once') -- exercised by the differential replay over all subsets of up to 8 records",
+        "level_text": "delete() through a cursor removes exactly the byte range of the record under the cursor from the (decompressed) packet, lowers exactly that section's count, clears the section offset when the count reaches zero, and turns the cursor into a tombstone (exact-state postcondition `deleted`); client_delete proves for every valid cursor of a record section: the call succeeds, object and cursor invariants hold again, the section then consists of the k records before the cursor in place and the n-k-1 after it moved up (byte-exact), and a second delete() through the same cursor returns an error leaving packet and cursor untouched; client_walk_delete_answers proves the general statement for the answer section, on compressed and pointer-free packets: the repository's walk idiom (`while let Some(mut item) = it { if decide(&item) { item.delete() } it = item.next() }`) with a `decide` that has NO contract (arbitrary subset, arbitrary answers on revisits) terminates (lexicographic decreases: records left, records not yet reached), and afterwards the section holds exactly the never-deleted records, byte for byte, in their original order, with a matching count (ghost index sequence `cur`, lemma_cut_recs), every survivor was yielded at least once, only members of the current section are ever yielded (so no deleted record again), and an emptied section reads as absent. client_delete_all_answers is the special case 'delete everything'. NOT proved: the same walk for the authority / additional sections (same code path through ResponseIterator; the additional section also involves OPT skipping) and the question -- exercised by the differential replay over all subsets of up to 8 records",
         "technique": "Verus exact-state postcondition of delete() incl. the tombstone protocol + verified walk clients (termination by decreases); arbitrary-subset walks by differential replay (stated)",
     },
 })
